@@ -329,7 +329,9 @@ pub fn large(ctx: &mut Ctx) {
     type F = oxidd::bdd::BDDFunction;
     let mut rng = ctx.rng(0xC08_1A);
     let k = 18u32; // f = OR_i (x_i & x_{i+k}) over 2k variables: about 2^k nodes under the identity order
-    let n = 2 * k;
+    // two more variables that no function depends on: their levels stay empty, and the reversals
+    // below move empty levels past populated ones
+    let n = 2 * k + 2;
     let threads = 4u32;
     let label = format!("c08large n={n} threads={threads} seed={} shard={}", ctx.seed, ctx.shard);
     println!("@@{{\"t\":\"case\",\"case\":{}}}", crate::ctx::json_str(&label));
@@ -437,5 +439,5 @@ pub fn large(ctx: &mut Ctx) {
     mref.with_manager_shared(|m| m.gc());
     let left = mref.with_manager_shared(|m| m.num_inner_nodes());
     ctx.check(left == 0, "bdd:large:gc:nodes-left-after-dropping-everything", || format!("{label}: {left}"));
-    ctx.sample(|| format!("{label}: f = OR_i(x_i & x_(i+18)) over 36 variables ({exact} nodes), {rounds} x set_var_order on {threads} workers, alternating a shuffled window of 6 middle variables and reversals of the whole order / of 12..24 consecutive levels"));
+    ctx.sample(|| format!("{label}: f = OR_i(x_i & x_(i+18)) over 36 of 38 variables (2 unused: empty levels; {exact} nodes), {rounds} x set_var_order on {threads} workers, alternating a shuffled window of 6 middle variables and reversals of the whole order / of 12..24 consecutive levels"));
 }
